@@ -35,6 +35,20 @@ Theorem auto_ok_only_from_starting : forall cur,
   (cur <> Starting -> fsm_step cur RAutoOK = (cur, None)).
 Proof. exact auto_ok_l. Qed.
 
+(* ... and for ANY report history followed by the automatic OK (what StartAll / Extensions.Start do
+   after a component's own Start returned nil, whatever the component reported meanwhile): OK is
+   delivered exactly when the instance is still in Starting, otherwise nothing is. *)
+Theorem auto_ok_after_any_history : forall rs,
+  events_of (rs ++ [RAutoOK]) =
+  events_of rs ++ (if status_eqb (fst (fsm_run SNone rs)) Starting then [OK] else []).
+Proof. exact auto_ok_after_l. Qed.
+
+(* The reports the service issues around component Start/Shutdown (graph.StartAll/ShutdownAll,
+   Extensions.Start/Shutdown), interleaved with whatever the components report themselves, for any
+   number of instances in any order: every instance still sees a path of the diagram. *)
+Theorem lifecycle_events_follow_diagram : forall os i, path SNone (proj_events i (lc_events os)).
+Proof. exact lifecycle_path_l. Qed.
+
 (* Any interleaving of reports for any number of instances (each report atomic under the
    reporter's mutex): the events of instance i are the sequential FSM run of i's own reports. *)
 Theorem interleaving_irrelevant : forall ls i,
@@ -75,3 +89,5 @@ Print Assumptions reporter_events_follow_diagram.
 Print Assumptions shared_events_follow_diagram.
 Print Assumptions shared_delivers_all_partial.
 Print Assumptions shared_delivers_all_refuted.
+Print Assumptions auto_ok_after_any_history.
+Print Assumptions lifecycle_events_follow_diagram.
